@@ -271,7 +271,8 @@ func (p *notifier) Run() error {
 	// do outside of main loop to prevent long running read
 	for _, event := range readyToRetry {
 		if err := p.notifyNow(event); err != nil {
-			if event.Retries < maxRetries {
+			// like Notify: an event whose receiver just reported a fatal error is done, it must not be offered again
+			if event.Retries < maxRetries && !errors.As(err, new(EventFatal)) {
 				failedAtStartup = append(failedAtStartup, event)
 			}
 		}
